@@ -36,6 +36,25 @@ SPECIAL = nw.PRIMS
 GENERIC = [k for k in nw.KINDS if k not in nw.PRIMS]
 
 
+KNOWN_FILE = cm.VERIF / "known_findings_C09.json"
+
+
+def load_known():
+    """status=finding entries for C09: the merged known_findings.json wins (a fixed entry there removes the id)"""
+    out = {}
+    if KNOWN_FILE.exists():
+        for e in json.loads(KNOWN_FILE.read_text())["entries"]:
+            if e.get("property") == PID and e.get("status") == "finding":
+                out[e["id"]] = e
+    for e in cm.load_known(PID):
+        out[e["id"]] = e
+    glob = cm.VERIF / "known_findings.json"
+    if glob.exists():
+        fixed = {e["id"] for e in json.loads(glob.read_text())["entries"] if e.get("status") == "fixed"}
+        out = {k: v for k, v in out.items() if k not in fixed}
+    return out
+
+
 def prim_ok(spec):
     return spec["kind"] in nw.PRIMS and "margin" not in spec
 
@@ -227,6 +246,7 @@ def run(tier, seed, replay=None):
     exprs, idx = [], []
     hist = {}
     path_checks = 0
+    known = load_known()
 
     def bump(k):
         hist[k] = hist.get(k, 0) + 1
@@ -240,6 +260,9 @@ def run(tier, seed, replay=None):
             byfn[key] = r
             if "exc" in r and r["fn"] not in ("jolt_full", "jolt_iterations"):
                 bump(f"{key}:EXC:{r['exc']}")
+                if r["exc"] == "ZeroDivisionError" and key == "nesterov_prim_full+acc" and nb.is_FN2(s1, s2) and "F-N2" in known:
+                    R.known_finding("F-N2", known["F-N2"]["what"])
+                    continue
                 R.failure(f"{key} raised {r['exc']}: {r.get('exc_msg', '')}", dict(c1=s1, c2=s2, meta=c["meta"], result=r),
                           site=key)
         A, B = nw.sh_expr(s1), nw.sh_expr(s2)
@@ -261,6 +284,9 @@ def run(tier, seed, replay=None):
             if r is None or "exc" in r:
                 continue
             if not math.isfinite(r["d"]):
+                if key == "nesterov_full+acc" and nb.is_FN2(s1, s2) and "F-N2" in known:
+                    R.known_finding("F-N2", known["F-N2"]["what"])
+                    continue
                 R.failure(f"{key} returned a non-finite distance {r['d']!r}", dict(c1=s1, c2=s2, meta=c["meta"], result=r), site=key)
                 continue
             vals.append(max(r["d"], 0.0))
